@@ -3,6 +3,7 @@ package ast
 import (
 	"errors"
 	"fmt"
+	"sort"
 
 	"github.com/grafana/cog/internal/orderedmap"
 )
@@ -71,8 +72,16 @@ func (schemas Schemas) Consolidate() (Schemas, error) {
 		byPackage[schema.Package] = append(byPackage[schema.Package], schema)
 	}
 
+	// To ensure a consistent output
+	packages := make([]string, 0, len(byPackage))
+	for pkg := range byPackage {
+		packages = append(packages, pkg)
+	}
+	sort.Strings(packages)
+
 	newSchemas := make([]*Schema, 0, len(schemas))
-	for pkg, groupedSchemas := range byPackage {
+	for _, pkg := range packages {
+		groupedSchemas := byPackage[pkg]
 		newSchema := NewSchema(pkg, groupedSchemas[0].Metadata)
 		for _, schema := range groupedSchemas {
 			if err := newSchema.Merge(schema); err != nil {
